@@ -47,7 +47,8 @@ def parse (s : σ) (raw : Bytes) : PRes ε σ :=
 
 /-- the laws, relative to a state invariant `Inv` that `step` preserves -/
 structure Lawful (Inv : σ → Prop) : Prop where
-  inv : ∀ {s b i s' c}, Inv s → M.step s b = .ok i s' c → Inv s'
+  /-- `Inv` is an invariant of parsing *in progress*: it need not survive completion of the message -/
+  inv : ∀ {s b i s' c}, Inv s → M.step s b = .ok i s' c → i ≠ .completeWhole → Inv s'
   le : ∀ {s b i s' c}, Inv s → M.step s b = .ok i s' c → c ≤ b.length
   p1 : ∀ {s b i s' c}, Inv s → M.step s b = .ok i s' c → i ≠ .incomplete → ∀ d, M.step s (b ++ d) = .ok i s' c
   p2 : ∀ {s b s' c}, Inv s → M.step s b = .ok .incomplete s' c → ∀ d, M.step s (b ++ d) = (M.step s' (b.drop c ++ d)).shift c
@@ -75,7 +76,7 @@ theorem loop_fuel_irrel (L : M.Lawful Inv) {f1 f2 : Nat} {s : σ} {rem : Bytes} 
         | completePart =>
           have hd := L.dec hI hs
           simp only
-          apply ih (L.inv hI hs) <;> simp only [List.length_drop] <;> omega
+          apply ih (L.inv hI hs (by simp)) <;> simp only [List.length_drop] <;> omega
         | completeWhole => rfl
         | incomplete => rfl
 
@@ -92,7 +93,7 @@ theorem loop_isSome (L : M.Lawful Inv) {f : Nat} {s : σ} {rem : Bytes} {acc : N
       | completePart =>
         have hd := L.dec hI hs
         simp only
-        apply ih (L.inv hI hs); simp only [List.length_drop]; omega
+        apply ih (L.inv hI hs (by simp)); simp only [List.length_drop]; omega
       | completeWhole => rfl
       | incomplete => rfl
 
@@ -111,7 +112,7 @@ theorem loop_fuel_mono {f : Nat} {s : σ} {rem : Bytes} {acc : Nat} {r : PRes ε
 
 theorem loop_consumed (L : M.Lawful Inv) {f : Nat} {s s' : σ} {rem : Bytes} {acc c : Nat} {st : Status}
     (hI : Inv s) (h : M.loop f s rem acc = some (.ok st s' c)) :
-    acc ≤ c ∧ c ≤ acc + rem.length ∧ Inv s' := by
+    acc ≤ c ∧ c ≤ acc + rem.length ∧ (st = .incomplete → Inv s') := by
   induction f generalizing s rem acc with
   | zero => simp [loop] at h
   | succ f ih =>
@@ -120,16 +121,15 @@ theorem loop_consumed (L : M.Lawful Inv) {f : Nat} {s s' : σ} {rem : Bytes} {ac
     · simp at h
     · rename_i s1 c1 hs
       have := L.le hI hs
-      have := ih (L.inv hI hs) h
+      have := ih (L.inv hI hs (by simp)) h
       simp at this; exact ⟨by omega, by omega, this.2.2⟩
     · rename_i s1 c1 hs
       have := L.le hI hs
-      have hi := L.inv hI hs
-      simp at h; obtain ⟨_, rfl, rfl⟩ := h; exact ⟨by omega, by omega, hi⟩
+      simp at h; obtain ⟨rfl, rfl, rfl⟩ := h; exact ⟨by omega, by omega, by simp⟩
     · rename_i s1 c1 hs
       have := L.le hI hs
-      have hi := L.inv hI hs
-      simp at h; obtain ⟨_, rfl, rfl⟩ := h; exact ⟨by omega, by omega, hi⟩
+      have hi := L.inv hI hs (by simp)
+      simp at h; obtain ⟨rfl, rfl, rfl⟩ := h; exact ⟨by omega, by omega, fun _ => hi⟩
 
 /-- L1: completion is stable under extension (same fuel) -/
 theorem loop_append_complete (L : M.Lawful Inv) {f : Nat} {s s' : σ} {rem : Bytes} {acc c : Nat}
@@ -148,7 +148,7 @@ theorem loop_append_complete (L : M.Lawful Inv) {f : Nat} {s s' : σ} {rem : Byt
         simp only [hs] at h
         rw [L.p1 hI hs (by simp) d]; simp only
         rw [List.drop_append_of_le_length hle]
-        exact ih (L.inv hI hs) h
+        exact ih (L.inv hI hs (by simp)) h
       | completeWhole =>
         simp only [hs] at h
         rw [L.p1 hI hs (by simp) d]; exact h
@@ -173,7 +173,7 @@ theorem loop_append_fail (L : M.Lawful Inv) {f : Nat} {s : σ} {rem : Bytes} {ac
         simp only [hs] at h
         rw [L.p1 hI hs (by simp) d]; simp only
         rw [List.drop_append_of_le_length hle]
-        exact ih (L.inv hI hs) h
+        exact ih (L.inv hI hs (by simp)) h
       | completeWhole => simp [hs] at h
       | incomplete => simp [hs] at h
 
@@ -190,10 +190,10 @@ theorem loop_append_incomplete (L : M.Lawful Inv) {f : Nat} {s s' : σ} {rem : B
     | fail e => simp [hs] at h
     | ok i s1 c1 =>
       have hle := L.le hI hs
-      have hI1 := L.inv hI hs
       cases i with
       | completeWhole => simp [hs] at h
       | completePart =>
+        have hI1 := L.inv hI hs (by simp)
         simp only [hs] at h
         have hc := loop_consumed L hI1 h
         have hs' := L.p1 hI hs (by simp) d
@@ -211,6 +211,7 @@ theorem loop_append_incomplete (L : M.Lawful Inv) {f : Nat} {s s' : σ} {rem : B
             (by rw [hdrop]; exact h2)
           rw [this, hdrop]
       | incomplete =>
+        have hI1 := L.inv hI hs (by simp)
         simp only [hs, Option.some.injEq, PRes.ok.injEq, true_and] at h
         obtain ⟨rfl, rfl⟩ := h
         have hcc : acc + c1 - acc = c1 := by omega
@@ -238,7 +239,7 @@ theorem loop_append_incomplete (L : M.Lawful Inv) {f : Nat} {s s' : σ} {rem : B
                 have hlist : (rem ++ d).drop (c1 + c2) = (rem.drop c1 ++ d).drop c2 := by
                   rw [← List.drop_drop, List.drop_append_of_le_length hle]
                 rw [hlist, show acc + (c1 + c2) = acc + c1 + c2 by omega]
-                apply loop_fuel_irrel L (L.inv hI1 hr)
+                apply loop_fuel_irrel L (L.inv hI1 hr (by simp))
                 · have hs'' : M.step s (rem ++ d) = .ok .completePart s2 (c1 + c2) := by
                     rw [hp2, hr]; rfl
                   have := L.dec hI hs''
@@ -248,7 +249,7 @@ theorem loop_append_incomplete (L : M.Lawful Inv) {f : Nat} {s s' : σ} {rem : B
 /-! ### `parse` -/
 
 theorem parse_inv (L : M.Lawful Inv) {s s' : σ} {raw : Bytes} {c : Nat} {st : Status}
-    (hI : Inv s) (h : M.parse s raw = .ok st s' c) : Inv s' ∧ c ≤ raw.length := by
+    (hI : Inv s) (h : M.parse s raw = .ok st s' c) : (st = .incomplete → Inv s') ∧ c ≤ raw.length := by
   unfold parse at h
   cases hl : M.loop (M.μ s raw.length) s raw 0 with
   | none => simp [hl] at h
